@@ -99,6 +99,13 @@ def filter_kinds(ctx: Ctx, fi: FuncInfo, expr: ast.AST, node: Node, depth: int =
                     # a literal tuple / list of specs is classified element by element
                     for el in (recv.elts if isinstance(recv, (ast.Tuple, ast.List)) else [recv]):
                         via_callers |= _spec_kinds_from_callers(ctx, fi, el, node, depth)
+                        if isinstance(el, ast.Name):
+                            # a local that names a field of a record parameter: tool_ignore = walk.tool_ignore
+                            from ..decide import expand_expr as _xp
+
+                            el2 = _xp(prog, fi, el, node, strict=False)
+                            if isinstance(el2, ast.Attribute):
+                                via_callers |= _spec_kinds_from_callers(ctx, fi, el2, node, depth)
                     if via_callers:
                         kinds |= via_callers
                         found = True
